@@ -7,9 +7,10 @@ from contracts import spec as S
 
 # spec functions: shr(x, k) = x div 2^k (defined by recursion), bit(x, k) = shr(x, k) mod 2
 shr = z3.Function('shr', z3.IntSort(), z3.IntSort(), z3.IntSort())
-_x, _k = z3.Ints('x_ k_')
+_x, _k, _j = z3.Ints('x_ k_ j_')
 SHR_DEF = [z3.ForAll([_x], shr(_x, 0) == _x, patterns=[shr(_x, 0)]),
-           z3.ForAll([_x, _k], z3.Implies(_k >= 0, shr(_x, _k + 1) == shr(_x, _k) / 2), patterns=[shr(_x, _k + 1)])]
+           z3.ForAll([_x, _k, _j], z3.Implies(z3.And(_k >= 0, _j == _k + 1), shr(_x, _j) == shr(_x, _k) / 2),
+                     patterns=[z3.MultiPattern(shr(_x, _k), shr(_x, _j))])]
 
 
 def bit(x, k):
